@@ -503,6 +503,7 @@ def run(prog, ctx):
     n_z = C.emptiness_rule(res, prog, "C11.Z", sorted(C.EMPTY_FLAG))
     res.rule("C11.Z", n_z, 4, "conditions under which a writer sets the EMPTY flag vs the state is_empty() reads")
     C.import_rules(res, prog, ctx, "C11.N", "C12", ("C12.N", "C12.S"), "entry counts the writer announces vs the entries it emits", 3)
+    C.import_rules(res, prog, ctx, "C11.V", "C12", ("C12.V",), "signed Count-Min counters are written sign-extended (what the reader range-checks)", 3)
     res.explanation = ("co-simulation of the writer and reader I/O models extracted from MIR: the token sequence the writer emits in each abstract state is "
                        "consumed by the reader model, whose branches are evaluated on the preamble values actually written")
     res.not_decided = "semantic equality of the restored sketch (payload values and derived state)"
